@@ -14,7 +14,7 @@ import numpy as np
 
 from .. import core
 from ..gen import layouts
-from ..util import arr_equal_ulp as arr_equal, describe
+from ..util import arr_equal_ulp, describe
 
 PROP = 'C02'
 
@@ -114,8 +114,18 @@ def row_ops(n, fam):
     return rows
 
 
-def compare(lazy_reader, E, n, fam, with_cols):
+def ulps_for(prog):
+    """Float tolerance in ULP: 4 for one inexact step (NumPy's SIMD and scalar pow loops differ in
+    the last bit); every further pow / rpow amplifies the relative error of its input by up to
+    |exponent * ln(base)| <= ~128 for finite float32 results."""
+    npow = sum(1 for o in prog if o[0] in ('pow', 'rpow'))
+    return 4 * (128 ** max(0, npow - 1))
+
+
+def compare(lazy_reader, E, n, fam, with_cols, ulps=4):
     """Index a lazy reader every way of the mini alphabet; return the first disagreement."""
+    def arr_equal(a, b):
+        return arr_equal_ulp(a, b, ulps)
     checked = 0
     for rname, r in row_ops(n, fam):
         rr = [r] if isinstance(r, int) else r
@@ -205,7 +215,7 @@ def run_programs(case, acc, order):
                             PROP, 'program', sig, case=dict(case, only_prog=prog), op={'program': prog},
                             expected='a reader', observed=describe(lz)), len(prog) * 10 ** 6 + order)
                     else:
-                        cnt, bad = compare(lz, E, n, fam, with_cols=True)
+                        cnt, bad = compare(lz, E, n, fam, with_cols=True, ulps=ulps_for(prog))
                         acc.step(nontrivial, 'depth%d' % len(prog), n=cnt)
                         if bad:
                             rname, c, exp, got = bad
@@ -290,7 +300,7 @@ def run_trees(case, acc, order):
                                     if isinstance(r, BaseException) or not hasattr(r, '_append_op'):
                                         cnt, res = 1, ('derive', None, 'a reader', r)
                                     else:
-                                        cnt, res = compare(r, Ej, n, fam, with_cols=False)
+                                        cnt, res = compare(r, Ej, n, fam, with_cols=False, ulps=ulps_for(p))
                                     acc.step(len(nodes) >= 3, 'tree%d' % len(h2), n=cnt)
                                     if res and bad is None:
                                         who = 'new-node' if j == len(nodes) - 1 else (
@@ -367,7 +377,8 @@ def explore(ctx):
                 'one row/column expression and comparing value and dtype with the eager expression; '
                 'non-trivial = program mixes >= 2 operator classes or changes the dtype, or the tree '
                 'holds >= 3 live readers')
-    ctx.assumptions = ['floating-point results are compared up to 4 ULP (NumPy evaluates pow and '
+    ctx.assumptions = ['floating-point results are compared up to 4 ULP, x128 per further pow/rpow in the program '
+                       '(error amplification of composed powers; NumPy evaluates pow and '
                        'division with different SIMD/scalar loops depending on the number of rows), '
                        'NaN/inf positions and dtype exactly; integer results exactly',
                        'when the eager expression on the whole array raises there is no eager value '
